@@ -9,11 +9,26 @@
   Decision rule (regenerated constants): engine `seq` checks on every write that the record occupies either the
   plain padded size or — only when compression was allowed (record > 256 bytes, neither the client-compressed flag
   0x10 nor the reserved 0x10000 set) — a smaller multiple of 256.
-  Codec (QuickLZ C / Go port): NOT proved — ~1000 lines of LZ77 outside this effort; validated by engine `qlz`
-  (round trips C→C, C→Go, Go→C, Go→Go over the value classes and thresholds; arbitrary / mutated bytes into the
-  safe decompressors in a child process).  See DESIGN.md C10 (partial).
+  CODEC (GoBeans/Model/Qlz.lean — the GO port of QuickLZ exactly as written: headerLen / SizeDecompressed /
+  SizeCompressed, Compress at levels 1 and 3, Decompress with every slice index an explicit bounds check (= a Go
+  panic), DecompressSafe; tied to the real code by engine `qlz`: the model's compressor is byte-identical to the Go
+  Compress and its decoder agrees with the real Decompress / DecompressSafe on result class, length and digest, also
+  on arbitrary and mutated streams).  Proved: the level-3 round trip for ALL inputs — `Compress(x,3)` never panics and
+  `Decompress(Compress(x,3)) = x` (`C10_go_roundtrip_level3`; level 3 is the level of the C build, whose output the
+  Go decoder must read); the stored ("gave up") form round-trips at both levels; for ARBITRARY bytes `Decompress`
+  terminates (`C10_go_decompress_terminates`: at most len − header + 1 passes — `recover` would not catch a hang) and
+  `DecompressSafe` returns an error or a slice of exactly the announced length (`C10_go_decompress_safe`); what it
+  allocates before any check is bounded by the header only (`C10_alloc_bound` — the 9-byte input of known finding
+  C10/nine-bytes-allocate-gigabytes is `QlzLemmas.hostile9_alloc`).
+  Engine `qlz` also runs the C implementation (in a child process): round trips C→C, C→Go, Go→C, Go→Go exact on every
+  generated value (classes incl. boundary-distance markers); arbitrary bytes into CDecompressSafe: KNOWN FINDINGS
+  (the C decoder is built without QLZ_MEMORY_SAFE: crashes / reads past its input).
+  Partial: the C code is compared, not modelled; the level-1 round trip (Go only, unused by the server) is stated
+  (`QlzRT.roundtrip1_statement`) and exercised, not proved.
 -/
 import GoBeans.Lemmas.Store
+import GoBeans.Lemmas.Qlz
+import GoBeans.Lemmas.QlzTotal3
 open Store Spec StoreLemmas
 
 /-- forget the sizes (the only trace of the compression decision) -/
@@ -57,3 +72,29 @@ theorem C10_vhash_uncompressed (hash : Key → Nat) (cfg : Store.Cfg) (b : Bucke
 /-- regenerated thresholds of the decision rule (item.go): the probe is 10 KiB, ratio limit 7/10, block 256 -/
 example : Gen.TRY_COMPRESS_SIZE = 10240 ∧ Gen.COMPRESS_RATIO_LIMIT_num = 7 ∧ Gen.COMPRESS_RATIO_LIMIT_den = 10
     ∧ Gen.PADDING = 256 ∧ Gen.FLAG_COMPRESS = 0x10000 ∧ Gen.FLAG_CLIENT_COMPRESS = 0x10 := by decide
+
+
+/-! the QuickLZ codec (Go port) -/
+
+/-- level 3 (the level of the C build): compression never panics and decompression gives the original back, for every
+    non-empty input below 4 GiB -/
+theorem C10_go_roundtrip_level3 (x : Qlz.Buf) (hx : x.size ≠ 0) (hsz : x.size + 400 < 2 ^ 32) :
+    ∃ c, Qlz.compress x 3 = some c ∧ Qlz.decompress c = .ok x :=
+  QlzRT.roundtrip3 x hx hsz
+
+theorem C10_go_roundtrip_safe_entry {x c : Qlz.Buf} (hx : x.size ≠ 0) (hsz : x.size + 400 < 2 ^ 32)
+    (h : Qlz.compress x 3 = some c) : Qlz.decompress c = .ok x ∧ Qlz.decompressSafe c = .ok x :=
+  QlzRT.compress3_roundtrip hx hsz h
+
+/-- arbitrary bytes: the decoder loop terminates -/
+theorem C10_go_decompress_terminates (s : Qlz.Buf) : Qlz.decompress s ≠ .fuel :=
+  QlzLemmas.decompress_terminates s
+
+/-- arbitrary bytes into the safe entry point: an error, or exactly the announced number of bytes -/
+theorem C10_go_decompress_safe (s : Qlz.Buf) :
+    (∃ out, Qlz.decompressSafe s = .ok out ∧ Qlz.sizeCompressed s = some s.size ∧ Qlz.sizeDecompressed s = some out.size)
+    ∨ Qlz.decompressSafe s = .error .badSizeC ∨ Qlz.decompressSafe s = .error .recovered :=
+  QlzLemmas.decompressSafe_spec s
+
+theorem C10_alloc_bound {s : Qlz.Buf} {a : Nat} (h : Qlz.allocBeforeChecks s = some a) : a ≤ 4294967295 + 36864 :=
+  QlzLemmas.allocBeforeChecks_le h
